@@ -753,7 +753,7 @@ def model_values(d, pts, tz, drv):
                     req['start'] = [sec(x) for x in st]
             else:
                 req['start'] = [sec(loc_tzl(x, tz)) for x in st]
-                mx = pd.to_datetime([pd.Timestamp.max])
+                mx = pd.to_datetime([pd.Timestamp.max - pd.Timedelta(2, 'd')])   # as the code: room for the zone conversion
                 if tz is not None:
                     mx = mx.tz_localize(tz)
                 v = int(mx.asi8[0])
